@@ -24,17 +24,17 @@ Definition Peak (T : list (list Z)) (b : nat) : Prop :=
 
 (* the unwhitened template: the matrix product of the stored template with the inverse whitening matrix *)
 Definition zsum (l : list Z) : Z := fold_right Z.add 0 l.
-Definition Unwhitened (W cols U : list (list Z)) : Prop :=
+Definition Unwhitened (W : list (list Z)) (scale : Z) (cols U : list (list Z)) : Prop :=
   length U = length W /\
   forall j, (j < length W)%nat ->
     length (nth j U []) = n_samples cols /\
     forall s, (s < n_samples cols)%nat ->
       nth s (nth j U []) 0 =
-      zsum (map (fun i => nth s (nth i cols []) 0 * nth j (nth i W []) 0) (seq 0 (length W))).
+      zsum (map (fun i => nth s (nth i cols []) 0 * nth j (nth i W []) 0) (seq 0 (length W))) * scale.
 (* the template the record refers to *)
 Definition Full_template (d : dataset) (r : request) (T : list (list Z)) : Prop :=
   exists cols, nth_error (d_templates d) (r_tid r) = Some cols /\
-    if r_unwhiten r then length cols = length (d_wmi d) /\ Unwhitened (d_wmi d) cols T else T = cols.
+    if r_unwhiten r then length cols = length (d_wmi d) /\ Unwhitened (d_wmi d) (d_scale d) cols T else T = cols.
 
 Definition chan_dist (P : list pos) (b c : nat) : Z := dist2 (nth c P (mkpos 0 0)) (nth b P (mkpos 0 0)).
 (* N is a set of the n nearest channels of b (all channels when n = 0: "if n:") *)
@@ -81,17 +81,17 @@ Definition kept_positions (cols : list (list Z)) (chans : list Z) : list nat :=
   filter (kept_b cols chans) (seq 0 (length cols)).
 Definition chan_at (chans : list Z) (i : nat) : nat := Z.to_nat (nth i chans 0).
 (* the (optionally unwhitened, on the sub-matrix of the kept channels) column stored at position i *)
-Definition sparse_col (W cols : list (list Z)) (chans : list Z) (unwhiten : bool) (i : nat) : list Z :=
+Definition sparse_col (W : list (list Z)) (scale : Z) (cols : list (list Z)) (chans : list Z) (unwhiten : bool) (i : nat) : list Z :=
   if unwhiten
   then let kept := kept_positions cols chans in
-       ucol (map (fun k => nth k cols []) kept) (wcol W (map (chan_at chans) kept) (chan_at chans i)) (n_samples cols)
+       ucol (map (fun k => nth k cols []) kept) (wcol W (map (chan_at chans) kept) (chan_at chans i)) (n_samples cols) scale
   else nth i cols [].
 (* sigma: the storage positions in the order of the returned record *)
 Definition Sparse_channels (cols : list (list Z)) (chans : list Z) (sigma : list nat) (r : trec) : Prop :=
   Permutation sigma (kept_positions cols chans) /\ t_channels r = map (chan_at chans) sigma.
-Definition Sparse_aligned (W cols : list (list Z)) (chans : list Z) (unwhiten : bool) (sigma : list nat)
+Definition Sparse_aligned (W : list (list Z)) (scale : Z) (cols : list (list Z)) (chans : list Z) (unwhiten : bool) (sigma : list nat)
            (r : trec) : Prop :=
-  t_template r = map (sparse_col W cols chans unwhiten) sigma /\
+  t_template r = map (sparse_col W scale cols chans unwhiten) sigma /\
   t_amplitude r = map ptp (t_template r).
 (* (distinct as soon as the stored, used, signal-carrying channels of the row are distinct) *)
 Definition Sparse_sorted (cols : list (list Z)) (chans : list Z) (r : trec) : Prop :=
@@ -200,9 +200,9 @@ Definition sparse_channels_b (cols : list (list Z)) (chans : list Z) (r : trec) 
                   nl_eqb (t_channels r) (map (chan_at chans) sigma)
   | None => false
   end.
-Definition sparse_aligned_b (W cols : list (list Z)) (chans : list Z) (unwhiten : bool) (r : trec) : bool :=
+Definition sparse_aligned_b (W : list (list Z)) (scale : Z) (cols : list (list Z)) (chans : list Z) (unwhiten : bool) (r : trec) : bool :=
   match sparse_sigma cols chans r with
-  | Some sigma => zll_eqb (t_template r) (map (sparse_col W cols chans unwhiten) sigma) &&
+  | Some sigma => zll_eqb (t_template r) (map (sparse_col W scale cols chans unwhiten) sigma) &&
                   zl_eqb (t_amplitude r) (map ptp (t_template r))
   | None => false
   end.
